@@ -1680,10 +1680,30 @@ func (vc *VC) execReturn(x *ssa.Return, st *State) {
 			name = fmt.Sprintf("%d", i)
 		}
 		e := env
+		var goal string
 		if c.Kind == "at-return" {
-			e = lenv
+			// clauses over locals apply only where those locals are in scope
+			g, ok := vc.tryEvalBool(c.E, lenv, st, vc.entry)
+			if !ok {
+				continue
+			}
+			goal = g
+		} else {
+			goal = vc.evalBool(c.E, e, st, vc.entry)
 		}
-		goal := vc.evalBool(c.E, e, st, vc.entry)
 		vc.oblige("post", fmt.Sprintf("%s@ret%d", name, vc.retCount), c.Props, goal, c)
 	}
+}
+
+func (vc *VC) tryEvalBool(e Expr, env *Env, st, old *State) (res string, ok bool) {
+	defer func() {
+		if r := recover(); r != nil {
+			if u, isU := r.(unsupportedErr); isU && (strings.Contains(u.msg, "unknown identifier") || strings.Contains(u.msg, "not allocated") || strings.Contains(u.msg, "not initialised")) {
+				ok = false
+				return
+			}
+			panic(r)
+		}
+	}()
+	return vc.evalBool(e, env, st, old), true
 }
